@@ -10,29 +10,17 @@ from .forwarding import branch_context
 from . import forwarding, codelemmas
 
 
-def fmt_roles(call):
-    """'{0}{1}..'.format(ec['A'], ec['B'], ...) -> ['A', 'B', ...] in output order, or None"""
-    if not (isinstance(call, ast.Call) and isinstance(call.func, ast.Attribute) and call.func.attr == 'format' and
-            isinstance(call.func.value, ast.Constant) and isinstance(call.func.value.value, str)):
+from .pat import concat_parts
+
+
+def fmt_roles(e):
+    """concatenation of ec['A'], ec['B'], ... -> ['A', 'B', ...] in output order, or None"""
+    parts = concat_parts(e)
+    if not parts or len(parts) < 2:
         return None
     out = []
-    auto = 0
-    for lit, field, spec, conv in string.Formatter().parse(call.func.value.value):
-        if lit:
-            return None
-        if field is None:
-            continue
-        if field == '':
-            i = auto
-            auto += 1
-        elif field.isdigit():
-            i = int(field)
-        else:
-            return None
-        if i >= len(call.args):
-            return None
-        a = call.args[i]
-        if isinstance(a, ast.Subscript) and isinstance(a.slice, ast.Constant):
+    for a in parts:
+        if isinstance(a, ast.Subscript) and isinstance(a.slice, ast.Constant) and isinstance(a.slice.value, str):
             out.append(a.slice.value)
         else:
             return None
@@ -60,7 +48,7 @@ def run(chk):
     forms = {}
     fguard = {}
     for n in own_nodes(st.node):
-        r = fmt_roles(n) if isinstance(n, ast.Call) else None
+        r = fmt_roles(n) if isinstance(n, (ast.JoinedStr, ast.BinOp, ast.Call)) else None
         if r:
             forms[len(r)] = r
             fguard[len(r)] = branch_context(n)
@@ -89,9 +77,12 @@ def run(chk):
     get5 = [getter.get(i) for i in range(5)]
     # ---- parser
     unpack = {}
+    unpack_src = []
     for n in own_nodes(sp.node):
-        if isinstance(n, ast.Assign) and isinstance(n.targets[0], ast.Tuple) and norm(n.value) == 'seps':
+        if isinstance(n, ast.Assign) and isinstance(n.targets[0], ast.Tuple) and isinstance(n.value, ast.Name) and \
+                len(n.targets[0].elts) in (4, 5):
             unpack[len(n.targets[0].elts)] = ([norm(e) for e in n.targets[0].elts], branch_context(n))
+            unpack_src.append(n.value.id)
     if 4 not in unpack or 5 not in unpack:
         raise AnalysisError('_split_msh: the 4- and 5-character unpackings of MSH-2 were not recognised')
     var2key = {}
@@ -100,6 +91,9 @@ def run(chk):
             for k, v in zip(n.keys, n.values):
                 if isinstance(k, ast.Constant) and isinstance(v, ast.Name):
                     var2key[v.id] = k.value
+        if isinstance(n, ast.Assign) and len(n.targets) == 1 and isinstance(n.targets[0], ast.Subscript) and \
+                isinstance(n.targets[0].slice, ast.Constant) and isinstance(n.value, ast.Name):
+            var2key[n.value.id] = n.targets[0].slice.value       # d['KEY'] = var (canonical form of d.update({'KEY': var}))
     par4 = [var2key.get(v) for v in unpack[4][0]]
     par5 = [var2key.get(v) for v in unpack[5][0]]
     ok4 = forms[4] == get4 == par4 and None not in par4
@@ -172,8 +166,31 @@ def run(chk):
     g = unpack[5][1]
     ok = 'len(seps) == N_SEPS_27' in g and ">= '2.7'" in g
     chk.ob('C07-E', 'parser accepts 5 characters only for v>=2.7', ok, 'guard `%s`' % g, sp.loc, key='C07-E|parser')
-    upd = [n for n in own_nodes(sp.node) if isinstance(n, ast.Call) and norm(n.func).endswith('.update') and 'TRUNCATION' in norm(n)]
-    ok = bool(upd) and all(branch_context(u).startswith('trunc_sep') for u in upd)
+    upd = []
+    for n in own_nodes(sp.node):
+        if isinstance(n, ast.Assign) and len(n.targets) == 1 and isinstance(n.targets[0], ast.Subscript) and \
+                isinstance(n.targets[0].slice, ast.Constant) and n.targets[0].slice.value == 'TRUNCATION':
+            upd.append((n, norm(n.value)))
+        if isinstance(n, ast.Call) and norm(n.func).endswith('.update') and n.args and isinstance(n.args[0], ast.Dict):
+            for k_, v_ in zip(n.args[0].keys, n.args[0].values):
+                if isinstance(k_, ast.Constant) and k_.value == 'TRUNCATION':
+                    upd.append((n, norm(v_)))
+
+    def under_present(node, var):
+        # the statement runs only where `var` is known to hold a character (truthy / not None)
+        p_ = node
+        while getattr(p_, '_parent', None) is not None and p_ is not sp.node:
+            par = p_._parent
+            if isinstance(par, ast.If):
+                from ..cfg import edge_implies
+                pos = (var, '%s is not None' % var)
+                neg = ('%s is None' % var, 'not %s' % var)
+                side = 'true' if any(p_ is b for b in par.body) else 'false'
+                if edge_implies(par.test, side, pos, neg):
+                    return True
+            p_ = par
+        return False
+    ok = bool(upd) and all(under_present(u, v_) for u, v_ in upd)
     chk.ob('C07-E', 'parser adds TRUNCATION only when a fifth character was read', ok, '', sp.loc, key='C07-E|parser-update')
 
     # ---- R
@@ -250,7 +267,20 @@ def run(chk):
     ok = any(isinstance(n, ast.Raise) and 'InvalidEncodingChars' in norm(n) for n in own_nodes(cec.node))
     miss_chk = any(isinstance(n, ast.Assign) and 'required -' in norm(n.value) for n in own_nodes(cec.node))
     chk.ob('C07-R', 'missing required roles are rejected with InvalidEncodingChars', ok and miss_chk, '', cec.loc, key='C07-R|missing')
-    ok = any(isinstance(n, ast.Compare) and 'len(seps) > len(set(seps))' == norm(n) for n in own_nodes(sp.node))
+    def dup_test(t):
+        # len(x) > len(set(x)), len(set(x)) < len(x), len(x) != len(set(x)): x has a repeated character
+        if not (isinstance(t, ast.Compare) and len(t.ops) == 1):
+            return False
+        a_, b_ = norm(t.left), norm(t.comparators[0])
+        for x_, y_, ops in ((a_, b_, (ast.Gt, ast.NotEq)), (b_, a_, (ast.Lt, ast.NotEq))):
+            if x_.startswith('len(') and y_ == 'len(set(%s))' % x_[4:-1] and isinstance(t.ops[0], ops):
+                return x_[4:-1]
+        return False
+    ok = False
+    for n in own_nodes(sp.node):
+        if isinstance(n, ast.If) and dup_test(n.test) and dup_test(n.test) in set(unpack_src) and \
+                any(isinstance(x, ast.Raise) and 'InvalidEncodingChars' in norm(x) for x in n.body):
+            ok = True
     chk.ob('C07-R', 'the parser rejects duplicated characters in MSH-2', ok, '', sp.loc, key='C07-R|parser-dups')
     ok = any(isinstance(n, ast.Call) and norm(n.func) == 'check_encoding_chars' for n in own_nodes(st.node))
     chk.ob('C07-R', 'the setter validates the set before writing MSH-1/MSH-2', ok, '', st.loc, key='C07-R|setter-checks')
